@@ -436,6 +436,51 @@ def c07_who(ctx):
         ctx.err('who:inventory', '-', 'at least 5 calls of the literal helpers', f'{n}')
 
 
+_TEXT_REWRITERS = ('join', 'split', 'rsplit', 'replace', 'lower', 'upper', 'casefold', 'title', 'swapcase', 'capitalize', 'translate', 'expandtabs', 'sub', 'subn',
+                   'encode', 'decode', 'format', 'center', 'ljust', 'rjust', 'zfill', 'removeprefix', 'removesuffix')
+
+
+def c07_text(ctx):
+    from engine.helpers import self_attr_stores
+    ctx.rule('C07.7', 'the text given to the expression parser is the text as written (only trimmed or cut out of the statement)', 8)
+    n = 0
+    for q, fi in sorted(ctx.repo.functions.items()):
+        for c in ast.walk(fi.node):
+            if not (isinstance(c, ast.Call) and unparse(c.func).split('.')[-1] == 'parse_expression' and len(c.args) >= 2):
+                continue
+            n += 1
+            # follow the argument back through locals and through attributes this very function stored
+            import copy
+            e = copy.deepcopy(c.args[1])
+            seen_ = []
+            for _ in range(5):
+                changed = False
+                for sub in list(ast.walk(e)):
+                    d = None
+                    if isinstance(sub, ast.Name) and sub.id not in fi.param_names:
+                        d = reaching_def(ctx, fi, sub.id, c)
+                    elif isinstance(sub, ast.Attribute) and isinstance(sub.value, ast.Name) and sub.value.id == 'self':
+                        st_ = [v for (stmt, tgt, v) in self_attr_stores(fi.node, sub.attr) if v is not None and stmt.lineno <= c.lineno]
+                        d = st_[-1] if len(st_) == 1 else None
+                    if d is not None and unparse(d) not in seen_ and unparse(d) != unparse(sub):
+                        seen_.append(unparse(d))
+
+                        class R(ast.NodeTransformer):
+                            def visit(self_, node):
+                                return copy.deepcopy(d) if node is sub else self_.generic_visit(node)
+                        e = R().visit(e)
+                        changed = True
+                        break
+                if not changed:
+                    break
+            bad = [x for x in ast.walk(e) if isinstance(x, ast.Call) and isinstance(x.func, ast.Attribute) and x.func.attr in _TEXT_REWRITERS]
+            ctx.check(not bad, f'text:as-written:{ctx.short(fi)}:{unparse(c.args[1])[:30]}', fi.site(c),
+                      'the text that is parsed is the operand / directive text itself (a quoted blank, a tab inside quotes, the letter case of a label are part of it)',
+                      f'parsed text is {unparse(e)[:120]}: rewritten by {", ".join(sorted({x.func.attr for x in bad}))}() before the parser sees it')
+    if n < 8:
+        ctx.err('text:inventory', '-', 'at least 8 calls of parse_expression', f'{n}')
+
+
 def c07_5(ctx):
     ctx.rule('C07.5', 'literal notations: pattern branches and parse_numeric_string branches agree', 8)
     util = 'bespokeasm.utilities'
@@ -614,7 +659,7 @@ def c07_state(ctx):
     state_discipline(ctx, ('bespokeasm.expression', 'bespokeasm.utilities', 'bespokeasm.assembler.bytecode.parts', 'bespokeasm.assembler.line_object.data_line'))
 
 
-RULES = [c07_1, c07_2, c07_3, c07_4, c07_5, c07_state, c07_who]
+RULES = [c07_1, c07_2, c07_3, c07_4, c07_5, c07_state, c07_who, c07_text]
 
 _X = 'expression/__init__.py'
 _U = 'utilities.py'
